@@ -8,6 +8,7 @@ import Proofs.C07_Poscar
 import Proofs.C07_Bounds
 import Proofs.C07_Hybrid
 import Proofs.C07_Index
+import Proofs.C07_Source
 namespace Atomman.C07
 open Atomman
 set_option linter.unusedSimpArgs false
@@ -637,5 +638,187 @@ theorem dump_scaled_unscale (b : Box ℚ) (hn : b.isLammpsNorm = true) (lf : Opt
 example : (boxOfHiLo ((hiLoOf ⟨⟨⟨4, 0, 0⟩, ⟨2, 4, 0⟩, ⟨0, 1, 4⟩⟩, ⟨1, 0, -1⟩⟩).map (divBy (some 10)))).relToCart
     ((⟨⟨⟨4, 0, 0⟩, ⟨2, 4, 0⟩, ⟨0, 1, 4⟩⟩, ⟨1, 0, -1⟩⟩ : Box ℚ).cartToRel ⟨3, 2, 1⟩) = ⟨3 / 10, 2 / 10, 1 / 10⟩ := by
   decide +kernel
+
+/-! ## whole calls: where the text goes, and the generated (source-derived) documents under the whole-file theorems -/
+
+open Atomman.Gen.WriterSource in
+/-- **deliver_spec**: the text is among the returned values exactly when no target is given, and is written to the
+    target exactly when one is given (never both, never neither); the optional second value is returned exactly when
+    asked for; only a file NAME can be named by the command snippet.  Holds for the tail of all four writers as the
+    source has it (`genDataDeliver`, `genDumpDeliver`, `genTableDeliver`, `genPoscarDeliver`). -/
+theorem deliver_spec (t : Target) (w : Bool) :
+    ((deliver t w).returnsContent = true ↔ t = .none) ∧ ((deliver t w).writes = true ↔ t ≠ .none) ∧
+    (deliver t w).returnsExtra = w ∧
+    (deliver t w).count = (if t = .none then 1 else 0) + (if w then 1 else 0) ∧
+    (∀ n, t.fname = some n ↔ t = .path n) ∧
+    genDataDeliver t w = deliver t w ∧ genDumpDeliver t w = deliver t w ∧ genTableDeliver t w = deliver t w ∧
+    genPoscarDeliver t w = deliver t false := by
+  refine ⟨?_, ?_, rfl, ?_, ?_, by rw [gen_dataDeliver_eq_model], by rw [gen_dumpDeliver_eq_model],
+    by rw [gen_tableDeliver_eq_model], gen_poscarDeliver_eq_model t w⟩
+  · simp [deliver]
+  · simp [deliver]
+  · cases t <;> cases w <;> rfl
+  · intro n; cases t <;> simp [Target.fname]
+
+example : deliver (.path "a.dat") true = ⟨false, true, true⟩ ∧ deliver .none false = ⟨true, false, false⟩ := by decide
+
+open Atomman.Gen.WriterSource in
+/-- **gen_files_are_model_files**: whenever a writer succeeds, its text is `renderLines` / `renderJoin` of the document
+    REGENERATED FROM THE PYTHON SOURCE (`genDataDoc` ∘ `genDataBoxLines` ∘ `genAtomsSection`, `genDumpDoc`, `genPoscarDoc`)
+    filled with the numbers the model computes; so `data_parse_write`, `data_wellformed`, `dump_parse_write`,
+    `poscar_parse_write` are statements about the line layout the source has on this run. -/
+theorem gen_files_are_model_files :
+    (∀ (s : Sys) (style : String) (u : Units) (f : Fmt) (text : List Char), writeData s style u f = .ok text →
+      ∃ p w lf, dataParts s style u = .ok (p, w) ∧ lengthFactor u = .ok lf ∧
+        text = renderLines (genDataDoc s.natoms s.natypes (genDataBoxLines f lf (hiLoOf w.box))
+          (genAtomsSection style (rowsDoc f p.rows)) (p.vel.map (rowsDoc f)))) ∧
+    (∀ (s : Sys) (props : List (String × List Nat)) (u : Units) (f : Fmt) (ts : Int) (text : List Char),
+      writeDump s props u f ts = .ok text →
+      ∃ lf rows, lengthFactor u = .ok lf ∧
+        tableRows s u (dumpIds s) s.pos (props.map fun p => dumpCol p.1 p.2) [] = .ok rows ∧
+        text = renderLines (genDumpDoc f lf (hiLoOf s.box) s.pbc ts s.natoms
+          (nameLine (props.map fun p => dumpCol p.1 p.2)) (rowsDoc f rows))) ∧
+    (∀ (s : Sys) (header : List String) (symbols : Option (List String)) (coordstyle : String) (scale : ℚ) (f : Fmt)
+      (text : List Char), writePoscar s header symbols coordstyle scale f = .ok text →
+      ¬ genPoscarRefuses scale ∧
+      text = renderJoin (genPoscarDoc f header scale s.box.vects symbols
+        (poscarNums s (isCartTok (strTok coordstyle)) scale).counts coordstyle
+        (poscarNums s (isCartTok (strTok coordstyle)) scale).coords)) := by
+  refine ⟨?_, ?_, ?_⟩
+  · intro s style u f text h
+    unfold writeData writeDataDoc at h
+    cases hp : dataParts s style u with
+    | error e => rw [hp] at h; simp [Except.map] at h
+    | ok pw =>
+      obtain ⟨p, w⟩ := pw
+      rw [hp] at h
+      simp only [Except.map, Except.ok.injEq] at h
+      obtain ⟨_, _, lf, cols, hlf, _, hn, hnt, hh, _⟩ := dataParts_ok s style u p w hp
+      refine ⟨p, w, lf, rfl, hlf, ?_⟩
+      rw [← h, ← gen_dataDoc_eq_model, gen_dataBoxLines_eq_model, hh, hn, hnt]
+  · intro s props u f ts text h
+    unfold writeDump at h
+    cases hd : writeDumpDoc s props u f ts with
+    | error e => rw [hd] at h; simp [Except.map] at h
+    | ok d =>
+      rw [hd] at h
+      simp only [Except.map, Except.ok.injEq] at h
+      obtain ⟨lf, rows, _, hlf, _, hr, hdoc⟩ := writeDumpDoc_ok s props u f ts d hd
+      exact ⟨lf, rows, hlf, hr, by rw [← h, hdoc, gen_dumpDoc_eq_model]⟩
+  · intro s header symbols coordstyle scale f text h
+    unfold writePoscar at h
+    cases hd : writePoscarDoc s header symbols coordstyle scale f with
+    | error e => rw [hd] at h; simp [Except.map] at h
+    | ok d =>
+      rw [hd] at h
+      simp only [Except.map, Except.ok.injEq] at h
+      obtain ⟨hsc, _, _, _, hdoc⟩ := writePoscarDoc_ok s header symbols coordstyle scale f d hd
+      exact ⟨fun hr => absurd ((gen_poscarRefuses_eq_model scale).mp hr) (not_le.mpr hsc),
+        by rw [← h, hdoc, gen_poscarDoc_eq_model]⟩
+
+/-- **poscar_refusal_iff** (the refusals of `poscar.dump` the model carries): the writer refuses exactly when the
+    factor is not positive, the system has no atom, the mode line is empty, or a symbols list has another length than
+    the system has atom types. -/
+theorem poscar_refusal_iff (s : Sys) (header : List String) (symbols : Option (List String)) (coordstyle : String)
+    (scale : ℚ) (f : Fmt) :
+    isOk (writePoscar s header symbols coordstyle scale f) = false ↔
+      (scale ≤ 0 ∨ s.natoms = 0 ∨ coordstyle.toList = [] ∨ ∃ l, symbols = some l ∧ l.length ≠ s.natypes) := by
+  unfold writePoscar writePoscarDoc
+  by_cases h1 : scale ≤ 0
+  · simp [h1, isOk, bind, Except.bind, throw, throwThe, MonadExceptOf.throw, Except.map]
+  · by_cases h2 : s.natoms = 0
+    · simp [h1, h2, isOk, bind, Except.bind, throw, throwThe, MonadExceptOf.throw, Except.map]
+    · by_cases h3 : coordstyle.toList = []
+      · simp [h1, h2, h3, isOk, bind, Except.bind, throw, throwThe, MonadExceptOf.throw, Except.map, pure, Except.pure]
+      · cases symbols with
+        | none => simp [h1, h2, h3, isOk, bind, Except.bind, throw, throwThe, MonadExceptOf.throw, Except.map, pure, Except.pure]
+        | some l =>
+          by_cases h4 : l.length = s.natypes
+          · simp [h1, h2, h3, h4, isOk, bind, Except.bind, throw, throwThe, MonadExceptOf.throw, Except.map, pure, Except.pure]
+          · simp [h1, h2, h3, h4, isOk, bind, Except.bind, throw, throwThe, MonadExceptOf.throw, Except.map, pure, Except.pure]
+
+example : isOk (writePoscar exSys ["t"] none "Direct" (-2) (.exp 5)) = false ∧
+    isOk (writePoscar exSys ["t"] (some ["Al"]) "Direct" 1 (.exp 5)) = false := by decide +kernel
+
+/-- **data_call_end_to_end**: `System.dump('atom_data', f=, units=, atom_style=, natypes=, potential=, float_format=,
+    return_info=)` as a whole, for every accepted call.  With `a` = the resolved (units, atom_style, natypes)
+    (`requested_args_used`): the ONE text of the file is returned first when no target is given and is otherwise
+    written to the target (and not returned); the snippet is the last returned value exactly when asked for; the number
+    of returned values is 0, 1 or 2 accordingly; the text, read by the independent `read_data`, has the system's atom
+    count, the resolved number of types, the resolved atom_style in its `Atoms #` line and one record per atom
+    (`data_parse_write` gives the rest); the snippet names the resolved unit style and atom style and the boundary
+    flags, and has a `read_data` line exactly when the target is a file name — naming that file. -/
+theorem data_call_end_to_end (s : Sys) (ua sa : Option String) (na : Option Nat) (pot : Option PotArgs)
+    (unitsOf : String → Units) (f : Fmt) (t : Target) (returnInfo : Bool) (r : CallResult)
+    (h : dataCall s ua sa na pot unitsOf f t returnInfo = .ok r) (hs : IntTyped s) :
+    ∃ content info pd,
+      dumpData { s with natypes := (resolveArgs ua sa na pot s.natypes).2.2 } (resolveArgs ua sa na pot s.natypes).2.1
+        (resolveArgs ua sa na pot s.natypes).1 (unitsOf (resolveArgs ua sa na pot s.natypes).1) f t.fname
+        = .ok (content, info) ∧
+      (t = .none → r.returned.head? = some content ∧ r.written = none) ∧
+      (t ≠ .none → r.written = some content ∧ content ∉ r.returned.take (r.returned.length - returnInfo.toNat)) ∧
+      r.returned.length = (deliver t returnInfo).count ∧
+      (returnInfo = true → r.returned.getLast? = some info) ∧
+      parseData content (resolveArgs ua sa na pot s.natypes).2.1 = some pd ∧
+      pd.natoms = s.natoms ∧ pd.ntypes = (resolveArgs ua sa na pot s.natypes).2.2 ∧
+      pd.styleHint = (styleWords (resolveArgs ua sa na pot s.natypes).2.1).map strTok ∧ pd.atoms.length = s.natoms ∧
+      info = renderLines (Gen.WriterSource.genInfoDoc s.pbc (resolveArgs ua sa na pot s.natypes).2.1
+        (resolveArgs ua sa na pot s.natypes).1 t.fname) ∧
+      [cs!"units", strTok (resolveArgs ua sa na pot s.natypes).1] ∈
+        infoDoc s.pbc (resolveArgs ua sa na pot s.natypes).2.1 (resolveArgs ua sa na pot s.natypes).1 t.fname ∧
+      (cs!"atom_style" :: (styleWords (resolveArgs ua sa na pot s.natypes).2.1).map strTok) ∈
+        infoDoc s.pbc (resolveArgs ua sa na pot s.natypes).2.1 (resolveArgs ua sa na pot s.natypes).1 t.fname ∧
+      [cs!"boundary", bflag s.pbc.x, bflag s.pbc.y, bflag s.pbc.z] ∈
+        infoDoc s.pbc (resolveArgs ua sa na pot s.natypes).2.1 (resolveArgs ua sa na pot s.natypes).1 t.fname ∧
+      (∀ n, [cs!"read_data", strTok n] ∈
+          infoDoc s.pbc (resolveArgs ua sa na pot s.natypes).2.1 (resolveArgs ua sa na pot s.natypes).1 t.fname
+        ↔ t = .path n ∨ (∃ m, t = .path m ∧ strTok m = strTok n)) := by
+  unfold dataCall at h
+  have hres := (requested_args_used s ua sa na pot unitsOf f t.fname).2.2.2.2.2
+  rw [hres] at h
+  generalize resolveArgs ua sa na pot s.natypes = a at *
+  cases hd : dumpData { s with natypes := a.2.2 } a.2.1 a.1 (unitsOf a.1) f t.fname with
+  | error e => rw [hd] at h; simp [Except.map] at h
+  | ok ci =>
+    obtain ⟨content, info⟩ := ci
+    rw [hd] at h
+    simp only [Except.map, Except.ok.injEq] at h
+    subst h
+    obtain ⟨hi, hu, hst, hb, hrd, o, ho, hc, _⟩ := info_names_used _ a.2.1 a.1 (unitsOf a.1) f t.fname content info hd
+    have hw : writeData { s with natypes := a.2.2 } a.2.1 (unitsOf a.1) f = .ok content := by
+      unfold writeData; rw [ho]; simp [Except.map, hc]
+    obtain ⟨p, w, lf, cols, L, pd, _, _, _, _, _, _, _, _, hpd, hna, hnt, _, hsh, hal, _⟩ :=
+      data_parse_write { s with natypes := a.2.2 } a.2.1 (unitsOf a.1) f content hw hs
+    refine ⟨content, info, pd, rfl, ?_, ?_, ?_, ?_, hpd, hna, hnt, hsh, hal, ?_, hu, hst, hb, ?_⟩
+    · intro ht; subst ht; simp [callResult, deliver]
+    · intro ht
+      cases t with
+      | none => exact absurd rfl ht
+      | path n => cases returnInfo <;> simp [callResult, deliver]
+      | stream => cases returnInfo <;> simp [callResult, deliver]
+    · cases t <;> cases returnInfo <;> rfl
+    · intro hr; subst hr; cases t <;> simp [callResult, deliver]
+    · rw [gen_infoDoc_eq_model]; exact hi
+    · intro n
+      cases t with
+      | none => simp [infoDoc, Target.fname]
+      | stream => simp [infoDoc, Target.fname]
+      | path m =>
+        simp only [infoDoc, Target.fname, Target.path.injEq]
+        constructor
+        · intro hm
+          simp at hm
+          exact Or.inr ⟨m, rfl, hm.symm⟩
+        · rintro (rfl | ⟨m', hm', hmm⟩)
+          · simp
+          · cases hm'; simp [hmm]
+
+example : isOk (dataCall exSys none none none none (fun _ => exUnits) (.fixed 3) (.path "a.dat") true) = true ∧
+    IntTyped exSys := by
+  constructor
+  · unfold dataCall dumpDataWith dumpData writeData writeDataDoc dataParts atomCols velCols styleCols dataDocOf
+    simp only [resolveArgs, Option.getD, styleWords_atomic]
+    decide +kernel
+  · intro col hcol; simp [exSys] at hcol
 
 end Atomman.C07
